@@ -262,6 +262,13 @@ def specOp : Op → Spec.SOp
 def sortedReads (d : Spec.SData) : List String :=
   sortStrings (d.map fun (k, v, e) => s!"{toHex k}={abbr v}:{boolStr e}")
 
+/-- the storage listing still holds a record under token `p` whose deadline has not passed -/
+def liveInStore (t : String) (p : String) (now : Int) : Bool :=
+  (unbracket t).any fun x =>
+    match x.splitOn "@" with
+    | [k, rest] => k == p && (match parseInt ((rest.splitOn "=").headD "") with | some d => decide (now ≤ d) | none => true)
+    | _ => false
+
 def judgeReq (js : JState) (b : Nat) (now : Int) (spec : String) (ops : List Op) (impl : List String) : JState × String :=
   match fieldsOf impl with
   | none => (js, "0 unparsable implementation answer")
@@ -301,10 +308,13 @@ def judgeReq (js : JState) (b : Nat) (now : Int) (spec : String) (ops : List Op)
           let want := match e with | .tooLong => ["err:keyTooLong", "err:valueTooLong"] | .cannotKeepOnServer => ["err:cookiesOnServer"] | .badNumber => []
           if want.contains s then (js, "1") else fail "save: expected a refusal"
         | .cleared =>
+          -- the specification's state moves on also when the verdict is 0, so that a later replay is judged against it
+          let js1 := { js with toks := revoke js.toks }
           if s != "ok" then fail "save: unexpected exception"
-          else if jarTok != "-" then fail "cleared session but the browser still holds a session cookie"
-          else if honest && sortStrings jarExp != [] then fail "cleared session but exposed cookies remain"
-          else ({ js with toks := revoke js.toks }, "1")
+          else if jarTok != "-" then (js1, "0 cleared session but the browser still holds a session cookie")
+          else if honest && sortStrings jarExp != [] then (js1, "0 cleared session but exposed cookies remain")
+          else if p.startsWith "I" && liveInStore t p now then (js1, "0 cleared session but its server-side record is still alive in the storage")
+          else (js1, "1")
         | .untouched =>
           if s != "ok" then fail "save: unexpected exception"
           else if jarTok != p then fail "untouched session but the session cookie changed"
@@ -317,16 +327,17 @@ def judgeReq (js : JState) (b : Nat) (now : Int) (spec : String) (ops : List Op)
               let body := sdrop sc 2
               let tok := (body.splitOn ":").headD ""
               let age := (body.splitOn ":").getD 1 ""
-              if age != ageStr cookieAge then fail s!"session cookie age {age}, expected {ageStr cookieAge}"
+              let toks1 := if tok != p then revoke js.toks else js.toks
+              let toks2 := (tok, ss) :: toks1.filter (·.1 != tok)
+              let js1 := { js with toks := toks2, seen := if js.seen.contains tok then js.seen else tok :: js.seen }
+              if age != ageStr cookieAge then (js1, s!"0 session cookie age {age}, expected {ageStr cookieAge}")
               else if tok == "-" || tok.startsWith "x" then fail "saved session but the cookie is empty or not canonical"
-              else if tok.startsWith "I" && tok != p && js.seen.contains tok then fail "a new server-side identifier is not fresh"
-              else if tok.startsWith "I" && tok == p && fresh then fail "new or reset session kept its identifier"
-              else if cookieAge ≥ 0 && jarTok != tok then fail "browser does not hold the issued cookie"
-              else if cookieAge ≥ 0 && honest && sortStrings jarExp != expExposed ss.data then fail "exposed cookies out of step with the session"
-              else
-                let toks1 := if tok != p then revoke js.toks else js.toks
-                let toks2 := (tok, ss) :: toks1.filter (·.1 != tok)
-                ({ js with toks := toks2, seen := if js.seen.contains tok then js.seen else tok :: js.seen }, "1")
+              else if tok.startsWith "I" && tok != p && js.seen.contains tok then (js1, "0 a new server-side identifier is not fresh")
+              else if tok.startsWith "I" && tok == p && fresh then (js1, "0 new or reset session kept its identifier")
+              else if cookieAge ≥ 0 && jarTok != tok then (js1, "0 browser does not hold the issued cookie")
+              else if cookieAge ≥ 0 && honest && sortStrings jarExp != expExposed ss.data then (js1, "0 exposed cookies out of step with the session")
+              else if p.startsWith "I" && tok != p && liveInStore t p now then (js1, "0 replaced server-side identifier still has a live record in the storage")
+              else (js1, "1")
 
 /-! ### main loop -/
 
